@@ -29,7 +29,16 @@ def main():
         cases = mod.generate(rng, tier)
     records = []
     for c in cases:
-        records.append(mod.run_case(c))
+        try:
+            records.append(mod.run_case(c))
+        except Exception as e:  # noqa: BLE001
+            # a public call on a generated (legitimate) case raised where the runner expected none: recorded as
+            # a failing input of its own instead of aborting the whole run
+            import traceback
+            tb = traceback.format_exc().strip().splitlines()
+            records.append(dict(kind=str(c.get("kind", "case")) if isinstance(c, dict) else "case", case=c,
+                                obs=dict(exception=type(e).__name__, where=tb[-3:]), coq="", tags=[],
+                                oracle=["required-call-raised"], key=f"raised/{type(e).__name__}", size=0))
     stats = mod.stats(records) if hasattr(mod, "stats") else {}
     stats["impl_s"] = round(time.time() - t0, 2)
     json.dump(dict(records=records, stats=stats, exhaustive=getattr(mod, "EXHAUSTIVE", False)), open(out, "w"))
